@@ -564,6 +564,7 @@ namespace crash {
 static char g_path[1024];
 static char g_head[1024];  // {"ev":"violation","case":K,"key":"C19:<component>:
 static char g_tail[6144];  // ,"params":{...}
+static char g_files[3][600]; // input files of the case (removed when the job goes down)
 static volatile sig_atomic_t g_armed = 0;
 static unsigned g_rank               = 0;
 
@@ -635,6 +636,9 @@ static void emit(const char* kind, const char* what, const char* text, unsigned 
     (void)r;
     close(fd);
   }
+  for (auto& f : g_files)
+    if (f[0])
+      unlink(f);
 }
 static void onSignal(int sig, siginfo_t* si, void*) {
   if (!g_armed) {
@@ -684,7 +688,10 @@ static void install(const char* outPath, unsigned rank) {
   for (int sg : sigs)
     sigaction(sg, &sa, nullptr);
 }
-static void arm(long k, const std::string& comp, const std::string& params) {
+static void arm(long k, const std::string& comp, const std::string& params, const c19::CaseArgs& a) {
+  snprintf(g_files[0], sizeof g_files[0], "%s", a.graphFile.c_str());
+  snprintf(g_files[1], sizeof g_files[1], "%s", a.transposeFile.c_str());
+  snprintf(g_files[2], sizeof g_files[2], "%s", a.mastersFile.c_str());
   snprintf(g_head, sizeof g_head, "{\"ev\":\"violation\",\"case\":%ld,\"key\":\"C19:%s:", k, comp.c_str());
   snprintf(g_tail, sizeof g_tail, ",\"params\":%s", params.c_str());
   g_armed = 1;
@@ -874,7 +881,7 @@ int main(int argc, char** argv) {
     if (pointProb)
       perturb_case(pseed ^ me, pointProb, 0, 20);
     mine.clear();
-    crash::arm(k, comp, params);
+    crash::arm(k, comp, params, a);
     RUNNERS[cb.policy](a, mine);
     crash::disarm();
     perturb_off();
